@@ -190,6 +190,13 @@ def cases_for_rewrites(tier, rnd):
     for i, sql in enumerate(_scripts(n, common.env.seed() * 13 + 505, multi=False, schemas=("sa", "dbx.scy", "sb"))):
         d = "ansi" if i % 3 else ["mysql", "postgres", "sparksql", "snowflake", "bigquery", "tsql"][i // 3 % 6]
         out.append({"sql": str(sql), "dialect": _dialect_for(sql, d), "metadata": None, "src": "generated"})
+    # MERGE whose UPDATE SET reads the matched target row itself (right-hand side qualified by the target's alias or name), beside source columns
+    for i in range(8 if tier == "quick" else 60):
+        al = ["", " t", " as tg%d" % i][i % 3]
+        q = "tgt_m%d" % i if not al else al.split()[-1]
+        d = ["ansi", "snowflake", "postgres", "bigquery"][i % 4]
+        out.append({"sql": f"merge into sa.tgt_m{i}{al} using src_m{i} s on {q}.k_1 = s.k_1 when matched then update set prev_v = {q}.v, amount = s.amount"
+                           + (f" when not matched then insert (k_1, v) values (s.k_1, s.v)" if i % 2 else ""), "dialect": d, "metadata": None, "src": "generated:merge_self"})
     # multi-statement scripts (statement boundaries are token boundaries too)
     m = 0
     for i, sql in enumerate(_scripts(n // 2, common.env.seed() * 13 + 506, depth=(1, 1, 2), multi=True)):
